@@ -520,6 +520,24 @@ def clause_setbound(repo, chk):
             chk.violation("G-bound", fn.key, "installed:overwrite=%s" % overwrite, "after set_bound(..., overwrite=%s) the bound table is %s: %s do(es) not carry the requested range - a fit that asks for a new range keeps fitting inside the old one and can return a point outside the requested bounds" % (overwrite, got, stale or sorted(set(got) ^ set(want))), file=VAR, line=fn.lineno)
 
 
+def clause_pairs(repo, chk):
+    """reader / writer partners of VarsManager agree on the coordinate they use by default"""
+    chk.rule("E-pair", "the reader / writer partners of VarsManager - (get, set) and (get_all_val, set_all) - have the same default for `val_in_fit`: writing back what was read with default arguments is the identity also for bounded parameters")
+    vm = repo.cls("%s::VarsManager" % VAR)
+    from ..model import const_value
+    for r_, w_ in (("get", "set"), ("get_all_val", "set_all")):
+        fr, fw = vm.methods.get(r_), vm.methods.get(w_)
+        if fr is None or fw is None:
+            raise AnalysisError("anchor vanished: VarsManager.%s / %s" % (r_, w_))
+        dr, dw = fr.defaults().get("val_in_fit"), fw.defaults().get("val_in_fit")
+        if dr is None or dw is None:
+            raise AnalysisError("VarsManager.%s / %s lost the val_in_fit option" % (r_, w_))
+        ok = const_value(dr) == const_value(dw) and isinstance(const_value(dr), bool)
+        chk.oblige("E-pair", "%s(val_in_fit=%s) / %s(val_in_fit=%s)" % (r_, norm_text(dr), w_, norm_text(dw)), ok)
+        if not ok:
+            chk.violation("E-pair", fr.key, "default:%s/%s" % (r_, w_), "%s reads with val_in_fit=%s by default but %s writes with val_in_fit=%s: vm.%s(vm.%s()) moves every bounded parameter through the bound transform" % (r_, norm_text(dr), w_, norm_text(dw), w_, r_), file=VAR, line=fr.lineno)
+
+
 def clause_h(repo, chk):
     """set_same: one shared variable, one group, and the group is free only if every part was free"""
     import sympy as sp
@@ -586,4 +604,5 @@ def run(repo, chk, tier):
     clause_f(repo, chk)
     clause_g(repo, chk)
     clause_setbound(repo, chk)
+    clause_pairs(repo, chk)
     clause_h(repo, chk)
